@@ -120,6 +120,7 @@ type Frame struct {
 	params   map[string]EVal
 	callOrd  map[string]int
 	overrides map[ssa.Value]Val
+	curIdx   int
 }
 
 type closureInfo struct {
@@ -658,7 +659,8 @@ func (tr *Tr) run(fn *ssa.Function, args []Val, bind []Val, st *State, reach *Te
 		if li := fr.loops[b]; li != nil {
 			tr.loopHeader(fr, li)
 		}
-		for _, in := range b.Instrs {
+		for ii, in := range b.Instrs {
+			fr.curIdx = ii
 			if fr.reach[b].IsFalse() {
 				if v, ok := in.(ssa.Value); ok {
 					fr.env[v] = tr.freshVal(v.Type(), "dead")
@@ -867,6 +869,23 @@ func (tr *Tr) instr(fr *Frame, in ssa.Instruction) {
 		var vals Val
 		for _, r := range x.Results {
 			vals = append(vals, tr.val(r)...)
+		}
+		if fr.contract != nil && len(fr.contract.AtReturn) > 0 && len(tr.frames) == 1 {
+			env := tr.envFor(fr, nil, fr.st)
+			env.zeroLocals = true
+			bindResults(env, fr.fn.Signature, vals)
+			for i, a := range fr.contract.AtReturn {
+				t, err := env.EvalBool(a.Expr)
+				if err != nil {
+					tr.specError(a, err)
+					continue
+				}
+				lbl := a.Label
+				if lbl == "" {
+					lbl = fmt.Sprint(i)
+				}
+				tr.obligeNamed("ret-assert", lbl, x.Pos(), t, "assertion at return: "+a.Src)
+			}
 		}
 		fr.rets = append(fr.rets, retInfo{cond: fr.reach[fr.cur], vals: vals, st: fr.st})
 	case *ssa.If, *ssa.Jump:
